@@ -70,7 +70,7 @@ CHECKS = {
         "every site), replayed bit for bit against integrate(t, events=...) on seeded operation sequences; theorems: "
         "terminal_stop_reports_status_two, terminal_stop_lands_on_event (the samples after a stop are those recorded before the event "
         "step followed by the nested call's steps, which end within max(eps, tolEps) of the root). Known findings: event time located on "
-        "the cubic dense output.",
+        "the cubic dense output; a later call that passes the same terminal event again stays at the stop and lists the crossing again (P30).",
    note="Trusted: Lean kernel, standard axioms, harness. Inputs of the event-loop model (oracle): integrator returns, callback actions, the "
         "probes delivered by the root finder and the sampled event functions (C14, C08), whether handle_events raises. Dense output and "
         "states are compared on the implementation.",
